@@ -770,6 +770,29 @@ impl<'a> G<'a> {
                         ts[0] = id("_");
                     }
                 }
+                if self.s.chance(35) {
+                    // one of the targets is an element of an existing list or an entry of an existing map
+                    let lists: Vec<String> = self.vars.iter().filter(|v| v.writable && v.kind == K::List).map(|v| v.name.clone()).collect();
+                    let maps: Vec<String> = self.vars.iter().filter(|v| v.writable && v.kind == K::Map).map(|v| v.name.clone()).collect();
+                    let target = if !maps.is_empty() && (lists.is_empty() || self.s.chance(50)) {
+                        let key = self.s.pick_str(&["a", "b", "c"]);
+                        Some(E::Dot(bx(id(&self.s.pick(&maps).clone())), key))
+                    } else if !lists.is_empty() {
+                        Some(E::Index(bx(id(&self.s.pick(&lists).clone())), bx(E::Int(0))))
+                    } else {
+                        None
+                    };
+                    if let (Some(t), E::MultiAssign(ts, rhs)) = (target, &mut out) {
+                        self.feat("multi-assign-chain-target");
+                        let k = self.s.below(ts.len() as u32) as usize;
+                        ts[k] = t;
+                        // simple values, so that the paren-free spelling of the tuple is available
+                        if self.s.chance(70) {
+                            let n = ts.len() + self.s.below(2) as usize;
+                            **rhs = E::Tuple((0..n).map(|i| E::Int(10 * (i as i64 + 1) + self.s.below(5) as i64)).collect());
+                        }
+                    }
+                }
                 out
             }
         }
